@@ -47,7 +47,8 @@ def _strategy(draw):
     grids = [g0]
     for i in range(draw(st.integers(1, 2))):
         shift = draw(st.integers(0, 3))
-        gi = {"start": str(tl.point(g0, shift)), "T": draw(st.integers(2, 8)), "freq": freq,
+        gi = {"start": str(tl.point(g0, shift)), "T": draw(st.integers(2, 8)),
+              "freq": draw(st.sampled_from([freq, freq, tl.freq_multiple(freq, 2)])),
               "mtu": draw(st.sampled_from(["h", "h", "d"])), "tz": draw(st.sampled_from(ZONES))}
         grids.append(gi)
     if draw(st.booleans()):
@@ -57,10 +58,13 @@ def _strategy(draw):
     assets = []
     n = draw(st.integers(2, 4))
     for i in range(n):
-        cls = draw(st.sampled_from(["simple", "simple", "contract", "storage", "transport", "chp", "plant", "scaled",
-                                    "structured", "orderbook", "multi"]))
+        cls = draw(st.sampled_from(["simple", "simple", "contract", "storage", "transport", "transport", "chp", "plant",
+                                    "scaled", "structured", "orderbook", "multi", "coarse"]))
         a = gen.draw_any(draw, cx, cls, "a%d" % i)
         a["naive"] = True
+        if cls == "coarse":
+            a["freq"] = tl.freq_multiple(freq, 2)     # equals the frequency of some grids, coarser than others
+            a["start"] = a["end"] = None
         if a["type"] == "structured" and draw(st.booleans()):
             a["start"], a["end"] = draw(st.integers(0, 1)), draw(st.integers(T0 - 2, T0))   # both ends clip the inner assets
             for x in a["assets"]:
